@@ -169,6 +169,9 @@ def validate_trace(chk, module, cfg, lines, stage, env=None, workers=1, timeout=
     res = tlc.run(module, cfg, workers=workers, env=e, timeout=timeout, scratch=chk.scratch)
     done = res.marked("DONE")
     if not done or done[0][1] != len(lines):
+        if os.environ.get("VERIF_DEBUG"):
+            shutil.copy(path, "/tmp/verif-debug-trace.ndjson")
+            open("/tmp/verif-debug-tlc.out", "w").write(res.out)
         raise tlc.TlcFailure("trace spec %s did not consume the whole trace (%s of %d):\n%s" % (
             module, done, len(lines), res.out[-3000:]))
     if res.invariant_violated or res.property_violated:
